@@ -117,16 +117,23 @@ def build_targets(targets, jobs=16):
     """Builds all targets (objects in parallel), returns {target.name: path}."""
     _ensure_dirs()
     uniq = {}
+
+    def skey(t, s):
+        # a source may be "file.cpp" (target-wide extra flags) or ("file.cpp", (flags,)) with its own
+        if isinstance(s, (tuple, list)):
+            return (s[0], t.variant, tuple(s[1]))
+        return (s, t.variant, t.extra)
+
     for t in targets:
         for s in t.sources:
-            uniq[(s, t.variant, t.extra)] = None
+            uniq[skey(t, s)] = None
     with ThreadPoolExecutor(max_workers=jobs) as ex:
         futs = {k: ex.submit(compile_obj, k[0], k[1], k[2]) for k in uniq}
         for k, f in futs.items():
             uniq[k] = f.result()
     out = {}
     for t in targets:
-        objs = [uniq[(s, t.variant, t.extra)] for s in t.sources]
+        objs = [uniq[skey(t, s)] for s in t.sources]
         h = hashlib.sha256((" ".join(objs) + " ".join(t.libs)).encode()).hexdigest()[:16]
         exe = os.path.join(BUILD, "bin", "%s.%s.%s" % (t.name, t.variant, h))
         if not os.path.exists(exe):
